@@ -253,3 +253,44 @@ func VerifC18_WatchScopes() {
 	}
 	verifrt.Reached("end")
 }
+
+// Read with any Uid and any group version of the type: a Uid of another lifetime never sees the
+// stored resource (not even through the group-version mismatch error, whose Stored field the
+// resource service treats as "the resource to update"); a matching or empty Uid reads it, under
+// the stored group version directly and under another one through the mismatch error.
+func VerifC18_Read() {
+	s := mustStore()
+	present := verifrt.Bool("present")
+	uid0, v0 := vTok("stored.uid"), vTok("stored.version")
+	if present {
+		if err := s.WriteCAS(vRes("r", uid0, v0), ""); err != nil {
+			panic(err)
+		}
+	}
+	uid := verifrt.Str("read.uid", 1)
+	gv := "v1"
+	if verifrt.Bool("read.other-group-version") {
+		gv = "v2"
+	}
+	id := &pbresource.ID{Type: &pbresource.Type{Group: "g", GroupVersion: gv, Kind: "K"}, Tenancy: vTenancy("default"), Name: "r", Uid: uid}
+	got, err := s.Read(id)
+	var mismatch storage.GroupVersionMismatchError
+	switch {
+	case !present:
+		verifrt.Assert("C18.read.absent-is-not-found", got == nil && errors.Is(err, storage.ErrNotFound))
+		verifrt.Reached("absent")
+	case uid != "" && uid != uid0:
+		verifrt.Assert("C18.read.stale-uid-sees-nothing-of-another-lifetime", got == nil && errors.Is(err, storage.ErrNotFound) && !errors.As(err, &mismatch))
+		verifrt.Reached("stale")
+	case gv != "v1":
+		ok := got == nil && errors.As(err, &mismatch)
+		if ok {
+			ok = mismatch.Stored != nil && mismatch.Stored.Id.Uid == uid0 && mismatch.Stored.Version == v0
+		}
+		verifrt.Assert("C18.read.other-group-version-reports-the-stored-resource", ok)
+		verifrt.Reached("mismatch")
+	default:
+		verifrt.Assert("C18.read.returns-the-stored-resource", err == nil && got != nil && got.Id.Uid == uid0 && got.Version == v0)
+		verifrt.Reached("read")
+	}
+}
